@@ -226,6 +226,26 @@ pub fn c05(a: &Args) {
             sessions.push((ops, i % 4, "context"));
         }
     }
+    // glue families: one clause behind different endings of what precedes it (paragraph break, line break,
+    // nothing but a comma / colon / quote / period): a rule that peeks outside its chunk shows through the cache
+    if let Some(corpus) = a.get("corpus") {
+        let corpus = read_corpus(corpus);
+        let seps = [".\n\n", ". ", ".\n", ",", ", ", ":", ": ", "!", "?", "\"", " ", ";", ".\n\n\n", ""];
+        for i in 0..a.num("glue-families", 60) as usize {
+            let base = if i % 2 == 0 {
+                // a short soup, optionally alone on its line
+                let mut t = String::new();
+                for k in 0..rng.range(1, 3) { if k > 0 { t.push(' '); } t.push_str(*rng.pick(&crate::inputs::ATOMS[..])); }
+                match rng.below(3) { 0 => format!("{t}\nBob"), 1 => format!("{t}\n\nSecond part."), _ => t }
+            } else { rng.pick(&corpus[..]).clone() };
+            let head = ["Thanks", "First part", "He said", "See you soon"][rng.below(4)];
+            let mut order: Vec<usize> = (0..seps.len()).collect();
+            for j in (1..order.len()).rev() { order.swap(j, rng.below(j + 1)); }
+            let ops: Vec<(String, usize, String, String)> = order.iter().take(8)
+                .map(|&k| ("lint".to_string(), 0, format!("{head}{}{base}", seps[k]), if i % 5 == 0 { "md".to_string() } else { "plain".to_string() })).collect();
+            sessions.push((ops, i % 4, "glue"));
+        }
+    }
     let threads = a.num("threads", 12) as usize;
     let evs = par_map(sessions.len(), threads, |_| (), |_, i| {
         let (ops, d, tag) = &sessions[i];
